@@ -16,8 +16,7 @@ Correspondence (model vs code -> `divergence`): value, wrapper flag of every con
 import copy, json, operator, os, pickle, sqlite3, sys
 
 from pony.orm import Database, Required, Optional, Json, IntArray, StrArray, db_session, commit, flush
-from pony.orm import core
-from pony.orm.ormtypes import TrackedValue, TrackedArray, TrackedList, TrackedDict
+from pony.orm.ormtypes import TrackedValue, TrackedArray
 
 sys.path.insert(0, os.path.dirname(os.path.dirname(os.path.abspath(__file__))))
 import gen_tracked  # noqa: E402
@@ -302,6 +301,7 @@ class Result(object):
         self.snaps = []         # (index into model_ops of the LAST op of the step, snapshot) to compare with the model
         self.model_valid = True # False once something outside the model happened (partial failure, extended slice, ...)
         self.partial = False
+        self.shared = 0
         self.stopped = False    # ended early: an exception left different partial effects in Pony and in plain Python
         self.init_T = None
         self.executed = 0
@@ -392,6 +392,7 @@ def execute(env, attr, init, prog, created=False, source=None):
                 if mm is None or (mm['n'] == 'sortFail' and rerr is None): res.model_valid = False
                 if res.model_valid:
                     if paths:
+                        if len(paths) > 1: res.shared += 1
                         for p in paths: res.model_ops.append({'t': c['t'], 'p': p, 'm': mm})
                         res.snaps.append((len(res.model_ops) - 1, snap(rerr), idx))
                     elif isinstance(x, TrackedValue) and notifying(x, c) and (rerr is None or (FACTS.get('notifyOnError') and not array_reject)):
@@ -706,6 +707,8 @@ def compare_model(ctx, batch, env=None, facts=None):
         if 'driver_error' in out:
             ctx.divergence('driver rejected the program', {'attr': attr, 'init': init, 'program': prog}, model=out['driver_error']); continue
         states = out['states']
+        for mo in res.model_ops:
+            ctx.count('model-op:%s%s' % (mo['t'], ('.' + mo['m']['n']) if 'm' in mo else ''))
         for mi, s, idx in res.snaps:
             m = states[mi]
             ctx.count('model-step-compared')
@@ -928,7 +931,7 @@ def run(ctx):
         if not tables['wrapsAll'] and not lost:
             ctx.divergence('the generated table says some stored containers stay unwrapped but no witness loses a change on the real code', facts['iterUnwrapped'])
     rng = ctx.rng
-    nprog = ctx.scale(260, 6000)
+    nprog = ctx.scale(260, 3000)
     batch = []
     for i in range(nprog):
         attr = rng.choice(['data'] * 8 + ['arr', 'sarr'])
@@ -939,6 +942,7 @@ def run(ctx):
             if o['op'] == 'call': ctx.count('op:%s.%s%s' % (o['t'], o['n'], (':' + str(o['k'])) if 'k' in o else ''))
             elif o['op'] == 'read': ctx.count('read:' + o['r'])
             elif o['op'] != 'take': ctx.count('op:' + o['op'])
+        if res.shared: ctx.count('program:call on an object that occurs at several paths (shared after *=)')
         if res.partial: ctx.count('program:partial-failure (outside the model)')
         if res.stopped: ctx.count('program:stopped after an exception with a different partial effect than plain Python')
         if not res.model_valid: ctx.count('program:model comparison stopped early')
